@@ -31,12 +31,12 @@ EXHAUSTIVE = {"quick": True, "thorough": True}
 TRUSTED = [
     "Coq 8.16.1 kernel incl. vm_compute",
     "hand-written model coq/Model/Brace.v of BraceParse / convert_junos_to_ios and of the pyparsing 3.1.1 scanner that nested_expr + the content expression amount to (expandtabs, white skipping, quoted_string at token start, maximal content runs, stop after the outer group) - pinned by both correspondence streams",
-    "pyparsing.printables, DEFAULT_WHITE_CHARS, the quoted_string regex sources, stop_width defaults, exclude_chars / opener / closer literals and the junos comment delimiter are re-read on every run (harness/gen_c08.py -> gen/TabC08.v) and checked by Props/C08.v",
+    "pyparsing.printables, DEFAULT_WHITE_CHARS, both stop_width defaults and the junos comment delimiter are re-read on every run (harness/gen_c08.py -> gen/TabC08.v) and checked against the model's constants by Props/C08.v C08_tables_as_modelled; the quoted_string regex sources and the exclude_chars / opener / closer literals are emitted for information, their behaviour is pinned by the raw stream",
     "parent rule of ConfigList.bootstrap restated as Model/Brace.v parents_model (the statement of property C02); compared with the real parents and children on every case",
     "correspondence driver harness/props/c08.py incl. its renderer (cross-checked against the Gallina render_forest on every well-formed case)",
 ]
 ASSUMPTIONS = ["statement texts: printable ASCII without braces, words separated by spaces, not starting with a quote or space, not ending with ';' or space",
-               "layout white space: space, LF, CR (tab-indented layouts are covered by the correspondence only)",
+               "layout white space: space, TAB, LF, CR; every generated layout of the tree stream is checked (in Coq) to satisfy the theorems' hypothesis wfT_lforest",
                "a leaf statement ends at a line break or directly before the closing brace of its block",
                "braces inside quoted strings, non-ASCII text and an extra closing brace are outside the stated quantifier (raw stream: fidelity only)"]
 
@@ -406,6 +406,6 @@ TECHNIQUE = ("Coq proofs (unbounded: all trees, all layouts of the stated family
 LEVEL_TEXT = ("Machine-checked theorems (Coq 8.16.1, closed under the global context): for every statement tree and every well-formed layout of it "
               "the brace parser returns exactly the flattened tree (4 spaces per enclosing block, statement text unchanged, source order, no line for a "
               "closing brace); the parent rule applied to that result gives, for every line, the statement that opened its innermost block; "
-              "a rendering with any closing brace missing raises.")
+              "a rendering with any closing brace missing raises. Layout white space may be spaces, tabs, LF, CR in any arrangement.")
 LEVEL_NOTE = ("The theorems are about Model/Brace.v (hand model incl. the third-party pyparsing scanner), tied to the running code by two correspondence "
-              "streams and by tables re-read on every run. Tab-indented layouts and inputs outside the quantifier are tested for model fidelity only.")
+              "streams and by tables re-read on every run. Inputs outside the quantifier (quotes at token start, braces in quotes, non-ASCII, extra closers) are tested for model fidelity only.")
